@@ -428,6 +428,8 @@ impl<'s> ParseState<'s> {
 }
 
 pub fn parse<'s>(path: &str, source: &'s str) -> (tag::Template, ParseState<'s>) {
+    // a byte order mark is an artefact of the file encoding, not a text node in front of the template
+    let source = source.strip_prefix('\u{feff}').unwrap_or(source);
     let mut state = ParseState::new(path, source, Default::default());
     let template = tag::Template::parse(&mut state);
     (template, state)
